@@ -18,13 +18,17 @@ repository's canonical form — to-LF unless the key ends in -with-crlf-in-repo,
 (repository -> working tree) is selected by the key's prefix: lf -> to-LF, crlf -> to-CRLF, native -> the platform
 converter; 'exact' has no filter; ContentFilter(reader, writer) keeps that argument order; an unknown key raises.
 K2: each converter joins the chunks, tests `b"\\x00" in content` first and returns the content unchanged on that branch
-(binary content is never converted); the conversion is only on the other branch. The to-LF conversion replaces CRLF by
-LF; the to-CRLF conversion substitutes only LFs not already preceded by CR (regex literal with a negative look-behind),
-so canonical text is a fixed point of writer∘reader. K1: filtered_output_bytes applies writers in reversed stack order
-and filtered_input_file applies readers in stack order.
+(binary content is never converted); the conversion is only on the other branch. K1: filtered_output_bytes applies writers
+in reversed stack order and filtered_input_file applies readers in stack order.
+Conversion table (replaces an earlier rule that compared the regex literal): both converters are evaluated by the abstract
+interpreter (sa/absint.py; the module's own compiled pattern, no breezy code runs) on all 1365 strings of length <= 5 over
+{a, LF, CR, NUL}: content with NUL is returned unchanged, the result does not depend on how the content is cut into chunks,
+and for each of the four reader/writer pairs every text that is a fixed point of the reader (the repository's canonical
+form) is a fixed point of reader(writer(.)). Failing rows are reported per pair and per class of input (CR before CRLF /
+other), so a known row does not hide a different one.
 Added while testing against seeded changes: Also: read converters are always applied once to [<file>.read()] (never
 block-wise) and internal_size_sha_file_byname goes through filtered_input_file.
-Does not decide: `re` substitution semantics on arbitrary CR/LF mixtures.
+Does not decide: strings longer than the table's bound (the converters are length-independent: one regex substitution).
 """
 TO_LF, TO_CRLF, NATIVE = "_to_lf_converter", "_to_crlf_converter", "_native_output"
 
@@ -82,19 +86,82 @@ def run(ctx):
             tb = g.reach([b for (b, l) in g.succ[t] if l == "T"], include_src=True)
             fb = g.reach([b for (b, l) in g.succ[t] if l == "F"], include_src=True)
             rets_t = [g.nodes[i] for i in tb if g.nodes[i].kind == "stmt" and isinstance(g.nodes[i].ast, ast.Return)]
-            convs = calling(g, attr=conv)
+            convs = calling(g, attr=("replace", "sub"))
             ctx.check("nul-guard", where, len(rets_t) == 1 and norm(rets_t[0].ast.value) == "[content]" and not (set(convs) & tb), "content containing NUL is returned unchanged", message="binary content (containing NUL) is converted")
             ctx.check("nul-guard", where, bool(set(convs) & fb), "text content is converted on the other branch")
             before = [n for n in g.nodes if n.kind == "stmt" and n.id not in tb and n.id not in fb and calls_in(n.ast) and any(call_attr(c) in ("replace", "sub") for c in calls_in(n.ast))]
             ctx.check("nul-guard", where, not before, "no conversion happens before the NUL test")
         joined = any(isinstance(s, ast.Assign) and norm(s.targets[0]) == "content" and norm(s.value) == "b''.join(chunks)" for s in walk_own(fn))
         ctx.check("whole-content", where, joined, "the test and the conversion look at the whole content, not at single chunks")
-    fl = repo.func(EF, TO_LF)
-    ctx.check("conversion-literals", f"{EF}:{TO_LF}", any(call_attr(c) == "replace" and [const_value(a) for a in c.args] == [b"\r\n", b"\n"] for c in calls_in(fl)), "to-LF replaces CRLF by LF")
-    fc = repo.func(EF, TO_CRLF)
-    rx = [s for s in mod.tree.body if isinstance(s, ast.Assign) and norm(s.targets[0]) == "_UNIX_NL_RE"]
-    pat = const_value(rx[0].value.args[0]) if rx and isinstance(rx[0].value, ast.Call) and rx[0].value.args else None
-    ctx.check("conversion-literals", f"{EF}:{TO_CRLF}", pat == rb"(?<!\r)\n" and any(norm(c.func) == "_UNIX_NL_RE.sub" and const_value(c.args[0]) == b"\r\n" for c in calls_in(fc)), "to-CRLF substitutes CRLF only for LFs not already preceded by CR", construct=str(pat))
+    # ---- conversion table: both converters evaluated by the abstract interpreter on every string over {a, LF, CR, NUL} up to
+    # length 5 (no breezy code runs; `re` is the only library semantics used, through the module's own compiled pattern)
+    import itertools
+
+    from ..absint import Interp, Raised, Unsupported, module_regex_hook
+
+    it = Interp(name_hook=module_regex_hook(mod.tree), loop_bound=64)
+    fl, fc = repo.func(EF, TO_LF), repo.func(EF, TO_CRLF)
+    convs_ = {TO_LF: fl, TO_CRLF: fc}
+
+    def _run(f_, chunks):
+        it.steps = 0
+        return it.call(f_, dict(zip([a.arg for a in f_.args.args], (list(chunks), None))))
+
+    strings = [b"".join(t) for k in range(0, 6) for t in itertools.product([b"a", b"\n", b"\r", b"\x00"], repeat=k)]
+    texts = [x for x in strings if b"\x00" not in x]
+    bad, evaluable = [], True
+    try:
+        for x in strings:
+            for nm, f_ in convs_.items():
+                out = _run(f_, [x])
+                if not isinstance(out, list) or not all(isinstance(c, bytes) for c in out):
+                    raise Unsupported(f"{nm} returns {out!r}")
+                whole = b"".join(out)
+                if b"\x00" in x and whole != x:
+                    bad.append(f"{nm} changes binary content {x!r} into {whole!r}")
+                if len(x) >= 2:
+                    for cut in range(1, len(x)):
+                        if b"".join(_run(f_, [x[:cut], x[cut:]])) != whole:
+                            bad.append(f"{nm} converts {x!r} differently when it arrives as {[x[:cut], x[cut:]]!r}")
+                            break
+        lf = {x: b"".join(_run(fl, [x])) for x in texts}
+        crlf = {x: b"".join(_run(fc, [x])) for x in texts}
+        # canonical content is a fixed point of reader(writer(.)) for each pair of the table
+        pair_bad = {}
+        for reader in (TO_LF, TO_CRLF):
+            rd = lf if reader == TO_LF else crlf
+            canon = [x for x in texts if rd[x] == x]
+            for writer in (TO_LF, TO_CRLF):
+                wr = lf if writer == TO_LF else crlf
+                for x in canon:
+                    y = wr[x]
+                    back = rd.get(y)
+                    if back is None:
+                        back = b"".join(_run(convs_[reader], [y]))
+                    if back != x:
+                        cls_ = "cr-before-crlf" if b"\r\r\n" in x else "other"
+                        pair_bad.setdefault((reader, writer, cls_), []).append((x, y, back))
+    except (Raised, Unsupported, AttributeError, TypeError, ValueError) as ex:
+        evaluable = False
+        ctx.info("conversion-table", EF, f"converters not evaluable ({ex}); falling back to the literal rule")
+    if evaluable:
+        ctx.fact(len(strings) * 2)
+        ctx.check("conversion-table", f"{EF}:{TO_LF}/{TO_CRLF}", not bad, f"over all {len(strings)} strings of length <= 5 over {{a, LF, CR, NUL}}: binary content is unchanged and the result does not depend on how the content is chunked", construct=bad[0][:200] if bad else "", message=f"end-of-line conversion law broken: {bad[0] if bad else ''} ({len(bad)} table rows fail)")
+        keys_using = {(r_, w_): sorted(k for k, row in rows.items() if row and row[0] == r_ and (row[1] == w_ or row[1] == NATIVE)) for r_ in (TO_LF, TO_CRLF) for w_ in (TO_LF, TO_CRLF)}
+        for reader in (TO_LF, TO_CRLF):
+            for writer in (TO_LF, TO_CRLF):
+                if not any(k[:2] == (reader, writer) for k in pair_bad):
+                    ctx.check("conversion-table", f"{EF}:read={reader},write={writer}", True, f"canonical text (a fixed point of the reader) is a fixed point of reader(writer(.)) — eol settings {keys_using[(reader, writer)]}")
+                for (r_, w_, cls_), fails in sorted(pair_bad.items()):
+                    if (r_, w_) != (reader, writer):
+                        continue
+                    x, y, back = fails[0]
+                    ctx.violation("conversion-table", f"{EF}:read={reader},write={writer}[{cls_}]", f"{x!r} -> {y!r} -> {back!r}", f"eol settings {keys_using[(reader, writer)]}: repository text {x!r} is written to the working tree as {y!r} and read back as {back!r} ({len(fails)} of the table's canonical texts, class {cls_}) — a fresh checkout reports the file as changed and the next commit stores different content")
+    else:
+        ctx.check("conversion-literals", f"{EF}:{TO_LF}", any(call_attr(c) == "replace" and [const_value(a) for a in c.args] == [b"\r\n", b"\n"] for c in calls_in(fl)), "to-LF replaces CRLF by LF")
+        rx = [s for s in mod.tree.body if isinstance(s, ast.Assign) and norm(s.targets[0]) == "_UNIX_NL_RE"]
+        pat = const_value(rx[0].value.args[0]) if rx and isinstance(rx[0].value, ast.Call) and rx[0].value.args else None
+        ctx.check("conversion-literals", f"{EF}:{TO_CRLF}", pat == rb"(?<!\r)\n" and any(norm(c.func) == "_UNIX_NL_RE.sub" and const_value(c.args[0]) == b"\r\n" for c in calls_in(fc)), "to-CRLF substitutes CRLF only for LFs not already preceded by CR")
     # ---- read converters always see the whole file ------------------------------------------------------------
     n_sites = 0
     for rel in repo.python_files():
@@ -124,11 +191,13 @@ def run(ctx):
 
 
 MUTANTS = [
+    Mutant("to-LF converts the CRLF of CR CR LF again (fix 44a15cd reverted)", EF, '        return [_DOS_NL_RE.sub(b"\\n", content)]\n', '        return [content.replace(b"\\r\\n", b"\\n")]\n', expect="conversion-table"),
+    Mutant("to-CRLF looks only at the first chunk for NUL", EF, '    content = b"".join(chunks)\n    if b"\\x00" in content:\n        return [content]\n    else:\n        return [_UNIX_NL_RE', '    content = b"".join(chunks)\n    if b"\\x00" in chunks[0]:\n        return [content]\n    else:\n        return [_UNIX_NL_RE', expect="nul-guard"),
     Mutant("size/sha of filtered files computed block-wise", FI, "        if filters:\n            f, _size = filtered_input_file(f, filters)\n        return osutils.size_sha_file(f)\n", "        if filters:\n            out = []\n            for block in osutils.file_iterator(f):\n                chunks = [block]\n                for filter in filters:\n                    if filter.reader is not None:\n                        chunks = filter.reader(chunks)\n                out.extend(chunks)\n            f = BytesIO(b\"\".join(out))\n        return osutils.size_sha_file(f)\n", expect="readers-see-whole-file"),
     Mutant("binary test on the first chunk only", EF, "    content = b\"\".join(chunks)\n    if b\"\\x00\" in content:\n        return [content]\n    else:\n        return [_UNIX_NL_RE.sub(b\"\\r\\n\", content)]", "    if chunks and b\"\\x00\" in chunks[0]:\n        return chunks\n    else:\n        return [_UNIX_NL_RE.sub(b\"\\r\\n\", c) for c in chunks]", expect="whole-content"),
     Mutant("'crlf' row stores CRLF in the repository", EF, "    \"crlf\": [ContentFilter(_to_lf_converter, _to_crlf_converter)],", "    \"crlf\": [ContentFilter(_to_crlf_converter, _to_crlf_converter)],", expect="table-row"),
     Mutant("conversion before the NUL test", EF, "    content = b\"\".join(chunks)\n    if b\"\\x00\" in content:\n        return [content]\n    else:\n        return [_UNIX_NL_RE.sub(b\"\\r\\n\", content)]", "    content = _UNIX_NL_RE.sub(b\"\\r\\n\", b\"\".join(chunks))\n    if b\"\\x00\" in content:\n        return [content]\n    else:\n        return [content]", expect=["nul-guard", "whole-content"]),
     Mutant("writers applied in forward order", FI, "        for filter in reversed(filters):", "        for filter in filters:", expect="application-order"),
-    Mutant("look-behind dropped from the LF regex", EF, "_UNIX_NL_RE = re.compile(rb\"(?<!\\r)\\n\")", "_UNIX_NL_RE = re.compile(rb\"\\n\")", expect="conversion-literals"),
+    Mutant("look-behind dropped from the LF regex", EF, "_UNIX_NL_RE = re.compile(rb\"(?<!\\r)\\n\")", "_UNIX_NL_RE = re.compile(rb\"\\n\")", expect="conversion-table"),
     Mutant("neutral: rows reordered", EF, "    \"lf\": [ContentFilter(_to_lf_converter, _to_lf_converter)],\n    \"crlf\": [ContentFilter(_to_lf_converter, _to_crlf_converter)],", "    \"crlf\": [ContentFilter(_to_lf_converter, _to_crlf_converter)],\n    \"lf\": [ContentFilter(_to_lf_converter, _to_lf_converter)],", neutral=True),
 ]
